@@ -13,7 +13,7 @@ GUARD = "EXO_VERIF"
 
 
 class CallRecord:
-    __slots__ = ("op", "proc_in", "args", "kwargs", "proc_out", "extra", "exc", "depth", "seq")
+    __slots__ = ("op", "proc_in", "args", "kwargs", "proc_out", "extra", "exc", "depth", "seq", "aux")
 
     def __init__(self, op, proc_in, args, kwargs, depth, seq):
         self.op = op
@@ -25,6 +25,7 @@ class CallRecord:
         self.exc = None
         self.depth = depth
         self.seq = seq
+        self.aux = None  # scratch for pre/post observers (e.g. fingerprints taken before the call)
 
     @property
     def accepted(self):
@@ -48,6 +49,9 @@ class Recorder:
         self.seq = 0
         self.enabled = True
         self.total = 0
+        # optional observers run around every primitive call (never raise into exo)
+        self.pre = None
+        self.post = None
 
     def clear(self):
         self.calls = []
@@ -103,6 +107,11 @@ def _wrap(op, name, Procedure, inspect):
         REC.total += 1
         rec = CallRecord(name, proc_in, list(args[1:]), named, REC.depth, REC.seq)
         REC.calls.append(rec)
+        if REC.pre is not None:
+            try:
+                REC.pre(rec)
+            except Exception:
+                pass
         REC.depth += 1
         try:
             res = raw(*args, **kwargs)
@@ -111,6 +120,11 @@ def _wrap(op, name, Procedure, inspect):
             raise
         finally:
             REC.depth -= 1
+            if REC.post is not None:
+                try:
+                    REC.post(rec)
+                except Exception:
+                    pass
         out = res
         if isinstance(res, tuple):
             out = res[0]
